@@ -6,6 +6,20 @@
 //!   B forwards (an `add` appears on B→C) or fails back (HTLCHandlingFailed with a local reason).
 //!   op:  admit <height> <inAmt> <inCltv> <outAmt> <outCltv> <feeBase> <feeProp> <delta>  →  ok | err <class> [<Reason>]
 //!
+//! model `c02hop`: the admission decision for EVERY next-hop kind, END-TO-END on 4 real nodes A–B–C(–D): a genuine
+//!   `update_add_htlc` A→B (real commitment dance) whose onion is REPLACED by one built with the same session key and
+//!   an arbitrary forward payload for B (`amt_to_forward` less / equal / one more / much more than the HTLC carries,
+//!   `outgoing_cltv_value` around every comparison), towards a public channel, a private channel, a channel whose peer
+//!   is offline (optionally disabled), B's phantom SCID, B's intercept SCID, and SCIDs in no namespace, under random
+//!   `htlc_interception_flags` / `accept_forwards_to_priv_channels` / a changed channel config (`prev_config`).  B is
+//!   driven through the real `process_pending_htlc_forwards`; an `HTLCIntercepted` is released with
+//!   `forward_intercepted_htlc(.., expected_outbound_amount_msat)` (what LSPS2 does); the HTLC is then claimed or failed
+//!   by the recipient.  Compared with the compiled `Forward.outcome`: reject + reason / forward / intercept + release /
+//!   phantom receive.
+//!   op:  hop <best> <flags> <acceptPriv> <prevPublic> <scid> <inAmt> <inCltv> <outAmt> <outCltv> (chan <announce> <live>
+//!        <enabled> <connected> <scidPrivacy> <alias> <cpMin> <feeProp> <feeBase> <delta> <hasPrev> <pProp> <pBase> <pDelta>
+//!        | phantom | intercept | unknown)
+//!
 //! model `c02fwd`: ONE forwarded HTLC, B with Completed or InProgress persistence, random schedules (every
 //!   message delivered separately, completions in any order, C claims or fails, B crashes and restarts — with the
 //!   in-flight monitor updates lost or kept — and reconnects).  The observed trace is turned into FwdProto op
@@ -17,7 +31,11 @@
 use ldk_verif_harness::common::*;
 use ldk_verif_harness::sim::*;
 use lightning::events::{Event, HTLCHandlingFailureReason};
-use lightning::ln::channelmanager::PaymentId;
+use lightning::ln::channelmanager::{PaymentId, MIN_CLTV_EXPIRY_DELTA};
+use lightning::ln::onion_utils::create_payment_onion;
+use lightning::ln::verif_hooks as vh;
+use lightning::sign::{NodeSigner, Recipient};
+use lightning::util::scid_utils::{block_from_scid, scid_from_parts, tx_index_from_scid, vout_from_scid};
 use lightning::ln::functional_test_utils::*;
 use lightning::ln::outbound_payment::RecipientOnionFields;
 use lightning::routing::router::{Path, PaymentParameters, Route, RouteHop, RouteParameters};
@@ -142,6 +160,271 @@ fn admit_scenario(rng: &mut Rng, rec: &mut Rec, sc: usize, n_cases: usize) {
 		}
 		let busy = net.nodes[B].node.list_channels().iter().any(|c| !c.pending_inbound_htlcs.is_empty() || !c.pending_outbound_htlcs.is_empty());
 		if busy { rec.notes.insert(format!("stuck_s{}", sc), format!("case {}", case)); break; }
+	}
+	std::mem::forget(net);
+}
+
+// =================================================================================================
+// c02hop
+// =================================================================================================
+const D: usize = 3;
+
+#[derive(Clone, Copy, PartialEq, Debug)]
+enum Kind { Pub, Priv, Dchan, Phantom, Intercept, Unknown, AliasNs }
+
+#[derive(Clone, Copy)]
+struct Cfg3 { prop: u32, base: u32, delta: u16 }
+impl Cfg3 { fn fee(&self, amt: u64) -> Option<u64> { amt.checked_mul(self.prop as u64).and_then(|p| (p / 1_000_000).checked_add(self.base as u64)) } }
+
+fn b_total_balance(net: &Net) -> u64 {
+	let mut t = 0;
+	for (a, b, cid, _) in net.chans.iter() {
+		let peer = if *a == B { *b } else if *b == B { *a } else { continue };
+		t += vh::channel_value_to_self_msat(net.nodes[B].node, &net.ids[peer], cid).unwrap_or(0);
+	}
+	t
+}
+
+fn local_reason(e: &Event) -> Option<String> {
+	if let Event::HTLCHandlingFailed { failure_reason, .. } = e {
+		Some(match failure_reason { Some(HTLCHandlingFailureReason::Local { reason }) => { let s = format!("{:?}", reason); s.split(|c: char| !c.is_alphanumeric()).next().unwrap().to_string() }, Some(HTLCHandlingFailureReason::Downstream) => "Downstream".to_string(), None => "None".to_string() })
+	} else { None }
+}
+
+/// reasons `can_forward_htlc_should_intercept` (and the phantom receive / unknown-SCID stage behind it) can give
+const ADMISSION_REASONS: &[&str] = &["PrivateChannelForward", "RealSCIDForward", "InvalidTrampolineForward", "ChannelDisabled", "PeerOffline", "ChannelNotReady",
+	"AmountBelowMinimum", "FeeInsufficient", "IncorrectCLTVExpiry", "UnknownNextPeer", "CLTVExpiryTooSoon", "CLTVExpiryTooFar", "OutgoingCLTVTooSoon", "PaymentClaimBuffer"];
+
+fn hop_scenario(rng: &mut Rng, rec: &mut Rec, sc: usize, n_cases: usize) {
+	let cur = Cfg3 { base: *rng.pick(&[0u32, 1, 1000, 12_345]), prop: *rng.pick(&[0u32, 1, 100, 2500, 999_999, 1_000_000]), delta: *rng.pick(&[48u16, 49, 72, 144]) };
+	let flags: u8 = match rng.below(20) { 0 | 1 => 0, 2 | 3 => 1, 4 | 5 => 128, 6..=8 => 129, 9 => 2, 10 => 4, 11 => 8, 12 => 16, 13 => 32, 14 => 64, 15 | 16 => 255, _ => rng.next() as u8 };
+	let accept_priv = rng.chance(1, 2);
+	let prev_public = rng.chance(2, 3);
+	let d_public = rng.chance(1, 2);
+	let d_online = rng.chance(1, 4);
+	let d_disabled = !d_online && rng.chance(1, 2);
+	let k = *rng.pick(&[0u32, 0, 11, 40]);
+	let mut bcfg = b_config(cur.base, cur.prop, cur.delta);
+	bcfg.htlc_interception_flags = flags;
+	bcfg.accept_forwards_to_priv_channels = accept_priv;
+	let mut ccfg = test_default_channel_config();
+	ccfg.channel_handshake_config.our_htlc_minimum_msat = *rng.pick(&[1u64, 1000, 5000]);
+	let mut dcfg = test_default_channel_config();
+	dcfg.channel_handshake_config.our_htlc_minimum_msat = *rng.pick(&[1u64, 2000]);
+	let mut net = Net::new(4, vec![None, Some(bcfg), Some(ccfg), Some(dcfg)]);
+	let c0 = if prev_public { net.open(A, B, 10_000_000, 4_000_000_000) } else { net.open_private(A, B, 10_000_000, 4_000_000_000) };
+	let c1 = net.open(B, C, 10_000_000, 4_000_000_000);
+	let c2 = net.open_private(B, C, 10_000_000, 4_000_000_000);
+	let c3 = if d_public { net.open(B, D, 10_000_000, 4_000_000_000) } else { net.open_private(B, D, 10_000_000, 4_000_000_000) };
+	if !d_online { net.disconnect(B, D); }
+	if d_disabled { for _ in 0..12 { net.nodes[B].node.timer_tick_occurred(); } net.pump(B); }
+	if k > 0 { connect_blocks(&net.nodes[B], k); net.pump(B); }
+	// a changed config on the public B-C channel: the old one stays acceptable as `prev_config`
+	let mut prev_c1: Option<Cfg3> = None;
+	let mut cur_c1 = cur;
+	if rng.chance(1, 3) {
+		let newc = Cfg3 { base: *rng.pick(&[0u32, 500, 2000, 50_000]), prop: *rng.pick(&[0u32, 10, 5000, 1_000_000]), delta: *rng.pick(&[48u16, 60, 100, 200]) };
+		let mut cc = net.nodes[B].node.list_channels().iter().find(|c| c.channel_id == net.chans[c1].2).unwrap().config.unwrap();
+		cc.forwarding_fee_base_msat = newc.base; cc.forwarding_fee_proportional_millionths = newc.prop; cc.cltv_expiry_delta = newc.delta;
+		if net.nodes[B].node.update_channel_config(&net.ids[C], &[net.chans[c1].2], &cc).is_ok() && (newc.base != cur.base || newc.prop != cur.prop || newc.delta != cur.delta) {
+			prev_c1 = Some(cur); cur_c1 = newc;
+		}
+		net.pump(B);
+	}
+	let secp = bitcoin::secp256k1::Secp256k1::new();
+	let phantom_scid = net.nodes[B].node.get_phantom_scid();
+	let intercept_scid = net.nodes[B].node.get_intercept_scid();
+	let phantom_pk = net.nodes[B].keys_manager.get_node_id(Recipient::PhantomNode).unwrap();
+	// the three namespaces of (block, tx) differ in the low vout bits by the namespace id (0 phantom, 1 alias, 2 intercept):
+	// vout ^ 4 is in no namespace, vout ^ 1 is in the outbound-alias namespace (not a channel of ours)
+	let (pb, pt, pv) = (block_from_scid(phantom_scid) as u64, tx_index_from_scid(phantom_scid) as u64, vout_from_scid(phantom_scid) as u64);
+	let unknown_scid = scid_from_parts(pb, pt, pv ^ 4).unwrap();
+	let aliasns_scid = scid_from_parts(pb, pt, pv ^ 1).unwrap();
+	let lim_a = net.nodes[A].node.list_channels()[0].next_outbound_htlc_limit_msat;
+	let min_a = net.nodes[A].node.list_channels()[0].next_outbound_htlc_minimum_msat.max(1);
+	rec.notes.insert(format!("hop_s{}", sc), format!("flags={} accept_priv={} prev_public={} d_public={} d_online={} d_disabled={} k={} cur=({},{},{}) prev_c1={}", flags, accept_priv, prev_public, d_public, d_online, d_disabled, k, cur.base, cur.prop, cur.delta, prev_c1.is_some()));
+	let min_delta = MIN_CLTV_EXPIRY_DELTA as u64;
+
+	for case in 0..n_cases {
+		let kind = match rng.below(16) { 0..=2 => Kind::Pub, 3 | 4 => Kind::Priv, 5 | 6 => Kind::Dchan, 7 | 8 => Kind::Phantom, 9..=11 => Kind::Intercept, 12..=14 => Kind::Unknown, _ => Kind::AliasNs };
+		let (ci, scid) = match kind { Kind::Pub => (Some(c1), net.chans[c1].3), Kind::Priv => (Some(c2), net.chans[c2].3), Kind::Dchan => (Some(c3), net.chans[c3].3),
+			Kind::Phantom => (None, phantom_scid), Kind::Intercept => (None, intercept_scid), Kind::Unknown => (None, unknown_scid), Kind::AliasNs => (None, aliasns_scid) };
+		// ---- the channel as the admission code sees it
+		let (ccur, cprev) = match kind { Kind::Pub => (cur_c1, prev_c1), _ => (cur, None) };
+		let det = ci.map(|ci| net.nodes[B].node.list_channels().into_iter().find(|c| c.channel_id == net.chans[ci].2).unwrap());
+		let cp_min = det.as_ref().map(|d| d.counterparty.outbound_htlc_minimum_msat.unwrap_or(0)).unwrap_or(0);
+		let hb = net.nodes[B].best_block_info().1 as u64 + 1;
+		let ha = net.nodes[A].best_block_info().1 as u64 + 1;
+		let d = if ci.is_some() { ccur.delta as u64 } else { min_delta };
+		// ---- amounts: what the onion asks B to forward vs what the HTLC carries
+		let base_out: u64 = match rng.below(8) { 0 => 10_000, 1 => 100_000, 2 => 1_000_000, 3 => 999_999, 4 => cp_min.max(2), 5 => cp_min.max(2) - 1, 6 => rng.range(1000, 50_000), _ => rng.range(2000, 30_000_000) };
+		let req = if ci.is_some() { ccur.fee(base_out).unwrap_or(0) } else { 0 };
+		let preq = cprev.and_then(|p| p.fee(base_out)).unwrap_or(req);
+		// focus: 0 = amounts on the edge with a comfortable expiry, 1 = expiries on the edge with a comfortable amount, 2 = both on the edge
+		let focus = rng.below(5);
+		let (mut in_amt, out_amt) = match if focus == 1 || focus == 3 { 13 } else { rng.below(13) } {
+			0 => (base_out + req, base_out),                                   // exactly the fee
+			1 => ((base_out + req).saturating_sub(1).max(1), base_out),          // one msat short of the fee
+			2 => (base_out + req + 1, base_out),
+			3 => (base_out + preq, base_out),                                  // exactly the previous config's fee
+			4 => ((base_out + preq).saturating_sub(1).max(1), base_out),
+			5 => (base_out, base_out),                                         // onion asks for exactly what the HTLC carries
+			6 => (base_out.saturating_sub(1).max(1), base_out),                // ... one msat more than it carries
+			7 => ((base_out / 2).max(1), base_out),                            // ... twice
+			8 => ((base_out / 10).max(1), base_out),                           // ... ten times
+			9 => (1, base_out),                                                // ... 1 msat in, everything out
+			10 => (base_out + 1, base_out),                                    // one msat less than it carries
+			11 => (base_out + req + rng.below(5000), base_out),
+			12 => (base_out * 2, base_out),
+			_ => (base_out + req.max(preq) + 1000, base_out),
+		};
+		if in_amt > lim_a { in_amt = lim_a; }
+		if in_amt < min_a { in_amt = min_a; }
+		// ---- expiries
+		let mut in_cltv = match if focus == 0 || focus == 4 { 8 } else { rng.below(9) } { 0 => hb + 39, 1 => hb + 40, 2 => hb + 2016, 3 => hb + 2017, 4 => hb + d + 4, 5 => hb + d + 3, _ => hb + d + 45 + rng.below(200) };
+		if in_cltv < ha { in_cltv = ha; }
+		let pd = cprev.map(|p| p.delta as u64).unwrap_or(d);
+		let out_cltv: u64 = match if focus == 0 || focus == 4 { 15 } else { rng.below(15) } {
+			0 => in_cltv.saturating_sub(d), 1 => in_cltv.saturating_sub(d) + 1, 2 => in_cltv.saturating_sub(d + 1),
+			3 => in_cltv.saturating_sub(min_delta), 4 => in_cltv.saturating_sub(min_delta) + 1,
+			5 => in_cltv.saturating_sub(pd), 6 => in_cltv.saturating_sub(pd) + 1,
+			7 => in_cltv, 8 => in_cltv + 1, 9 => in_cltv + 1000,
+			10 => hb + 3, 11 => hb + 4, 12 => hb + 39, 13 => hb + 40,
+			_ => in_cltv.saturating_sub(d + rng.below(30)),
+		};
+		// ---- the genuine payment: A -> B carries (in_amt, in_cltv); its onion names the target SCID
+		static COUNTER: std::sync::atomic::AtomicU64 = std::sync::atomic::AtomicU64::new(1);
+		let n = COUNTER.fetch_add(1, std::sync::atomic::Ordering::Relaxed);
+		let mut pre = [0x6bu8; 32]; pre[..8].copy_from_slice(&n.to_be_bytes());
+		let preimage = lightning::types::payment::PaymentPreimage(pre);
+		let hash = lightning::types::payment::PaymentHash({ use bitcoin::hashes::{sha256, Hash}; sha256::Hash::hash(&pre).to_byte_array() });
+		let to_d = kind == Kind::Dchan && d_online;
+		let recv = if kind == Kind::Phantom { B } else if to_d { D } else { C };
+		let secret = match net.nodes[recv].node.create_inbound_payment_for_hash(hash, None, 7200, None, None) { Ok(s) => s.0, Err(_) => { rec.discarded += 1; *rec.classes.entry("discard:setup-1".to_string()).or_insert(0) += 1; continue; } };
+		let next_pk = if kind == Kind::Phantom { phantom_pk } else { net.ids[recv] };
+		let hop0 = RouteHop { pubkey: net.ids[B], node_features: NodeFeatures::empty(), short_channel_id: net.chans[c0].3, channel_features: ChannelFeatures::empty(), fee_msat: 0, cltv_expiry_delta: 0, maybe_announced_channel: prev_public };
+		let hop1 = RouteHop { pubkey: next_pk, node_features: NodeFeatures::empty(), short_channel_id: scid, channel_features: ChannelFeatures::empty(), fee_msat: in_amt, cltv_expiry_delta: (in_cltv - ha) as u32, maybe_announced_channel: true };
+		let params = PaymentParameters::from_node_id(next_pk, 0).with_max_total_cltv_expiry_delta(u32::MAX / 2);
+		let mut route_params = RouteParameters::from_payment_params_and_value(params, in_amt);
+		route_params.max_total_routing_fee_msat = None;
+		let route = Route { paths: vec![Path { hops: vec![hop0.clone(), hop1.clone()], blinded_tail: None }], route_params };
+		let mut sk_bytes = rng.bytes32(); sk_bytes[0] = 0x01 | (sk_bytes[0] & 0x7f); // a valid secp256k1 scalar
+		let session_priv = match bitcoin::secp256k1::SecretKey::from_slice(&sk_bytes) { Ok(k) => k, Err(_) => { rec.discarded += 1; *rec.classes.entry("discard:setup-2".to_string()).or_insert(0) += 1; continue; } };
+		let bal_before = b_total_balance(&net);
+		let pos = net.trace.len();
+		let evpos = net.events[B].len();
+		*net.nodes[A].keys_manager.override_random_bytes.lock().unwrap() = Some(sk_bytes);
+		let id = PaymentId(hash.0);
+		let r = net.nodes[A].node.send_payment_with_route(route, hash, RecipientOnionFields::secret_only(secret, in_amt), id);
+		*net.nodes[A].keys_manager.override_random_bytes.lock().unwrap() = None;
+		net.pump(A);
+		if r.is_err() { rec.discarded += 1; *rec.classes.entry("discard:setup-3".to_string()).or_insert(0) += 1; continue; }
+		net.pays.push(PendingPay { hash, preimage, secret, amt: out_amt, id, from: A, to: recv });
+		let p = net.pays.len() - 1;
+		// ---- swap the onion: same session key, the forward payload for B says (scid, out_amt, out_cltv); the
+		// recipient's payload repeats (out_amt, out_cltv)
+		let onion_path = Path { hops: vec![hop0, RouteHop { fee_msat: out_amt, cltv_expiry_delta: out_cltv as u32, ..hop1 }], blinded_tail: None };
+		let pkt = match create_payment_onion(&secp, &onion_path, &session_priv, &RecipientOnionFields::secret_only(secret, out_amt), 0, &hash, &None, None, sk_bytes) { Ok((pkt, _, _)) => pkt, Err(_) => { rec.discarded += 1; *rec.classes.entry("discard:setup-4".to_string()).or_insert(0) += 1; continue; } };
+		let mut swapped = false;
+		if let Some(q) = net.q.get_mut(&(A, B)) { for w in q.iter_mut() { if let Wire::Add(m) = w { if m.payment_hash == hash && m.amount_msat == in_amt && m.cltv_expiry as u64 == in_cltv { m.onion_routing_packet = pkt.clone(); swapped = true; } } } }
+		if !swapped { rec.discarded += 1; if std::env::var("VERIF_TRACE").is_ok() { eprintln!("not swapped: want amt={} cltv={} ha={} hb={} q={:?}", in_amt, in_cltv, ha, hb, net.q.get(&(A, B)).map(|q| q.iter().map(|w| match w { Wire::Add(m) => format!("add {} {}", m.amount_msat, m.cltv_expiry), o => o.kind().to_string() }).collect::<Vec<_>>())); } *rec.classes.entry("discard:not-swapped".to_string()).or_insert(0) += 1; net.settle(12); continue; }
+		net.settle(12);
+		// ---- B's reaction
+		let mut intercepted: Option<(u64, u64, u64)> = None;
+		let mut released: Option<u64> = None;
+		let evs: Vec<Event> = net.events[B][evpos..].to_vec();
+		for e in &evs { if let Event::HTLCIntercepted { intercept_id, inbound_amount_msat, expected_outbound_amount_msat, outgoing_htlc_expiry_block_height, requested_next_hop_scid, .. } = e {
+			intercepted = Some((*inbound_amount_msat, *expected_outbound_amount_msat, outgoing_htlc_expiry_block_height.unwrap_or(0) as u64));
+			if *requested_next_hop_scid != scid { rec.oracle_fail(format!("hop s{} case {}: HTLCIntercepted names scid {} but the onion asked for {}", sc, case, requested_next_hop_scid, scid)); }
+			// what an LSP does: release at the expected amount over the channel to C (sometimes keeping a fee of its own)
+			let skim = if *expected_outbound_amount_msat > 2000 && rng.chance(1, 6) { 1 + rng.below(1000) } else { 0 };
+			released = Some(*expected_outbound_amount_msat - skim);
+			let r = net.nodes[B].node.forward_intercepted_htlc(*intercept_id, &net.chans[c1].2, net.ids[C], *expected_outbound_amount_msat - skim);
+			if r.is_err() { released = None; let _ = net.nodes[B].node.fail_intercepted_htlc(*intercept_id); }
+			net.pump(B);
+			net.settle(12);
+		} }
+		let seg: Vec<Obs> = net.trace[pos..].to_vec();
+		let add_out = seg.iter().find_map(|o| if let Obs::Msg { from: B, to, kind: "add", amt, detail, .. } = o { if *to != A { Some((*amt, parse_kv(detail, "cltv").unwrap_or(0))) } else { None } } else { None });
+		let reason = net.events[B][evpos..].iter().find_map(local_reason);
+		let claimable_b = net.claimable[B].iter().find(|c| c.0 == hash).map(|c| c.1);
+		// ---- implementation-side oracles on what B offered / credited (independent of the Lean model)
+		let fee_ok = |oa: u64| -> bool {
+			if ci.is_none() { return true; }
+			let ok = |c: &Cfg3| c.fee(oa).map(|f| in_amt >= oa && in_amt - oa >= f).unwrap_or(false);
+			ok(&ccur) || cprev.as_ref().map(|p| ok(p)).unwrap_or(false)
+		};
+		let delta_ok = |oc: u64| -> bool {
+			if ci.is_none() { return in_cltv >= oc + min_delta; }
+			in_cltv >= oc + ccur.delta as u64 || cprev.map(|p| in_cltv >= oc + p.delta as u64).unwrap_or(false)
+		};
+		if let Some((oa, oc)) = add_out {
+			if oa > in_amt || !fee_ok(oa) {
+				rec.oracle_fail(format!("hop s{} case {}: node offered {} msat downstream for an HTLC carrying {} < {} + fee (next hop {:?} scid {}, flags {}, intercepted {}, cfg ({},{},{}), height {}, in_cltv {}, out_cltv {})", sc, case, oa, in_amt, oa, kind, scid, flags, intercepted.is_some(), ccur.base, ccur.prop, ccur.delta, hb, in_cltv, oc));
+			}
+			if !delta_ok(oc) {
+				rec.oracle_fail(format!("hop s{} case {}: outgoing cltv {} > incoming {} - delta {} (next hop {:?} scid {}, flags {}, intercepted {}, in {} msat, out {} msat, height {})", sc, case, oc, in_cltv, d, kind, scid, flags, intercepted.is_some(), in_amt, oa, hb));
+			}
+			if oa != released.unwrap_or(out_amt) || oc != out_cltv { rec.oracle_fail(format!("hop s{} case {}: B offered amt={} cltv={} downstream but the onion asked for amt={} cltv={}", sc, case, oa, oc, out_amt, out_cltv)); }
+		}
+		if let Some((ia, ea, _)) = intercepted {
+			if ia != in_amt { rec.oracle_fail(format!("hop s{} case {}: HTLCIntercepted reports inbound_amount_msat {} for an HTLC carrying {}", sc, case, ia, in_amt)); }
+			if ea > in_amt { rec.oracle_fail(format!("hop s{} case {}: HTLCIntercepted expected_outbound_amount_msat {} > inbound_amount_msat {} (next hop {:?} scid {}, flags {})", sc, case, ea, in_amt, kind, scid, flags)); }
+		}
+		if let Some(ca) = claimable_b { if ca > in_amt { rec.oracle_fail(format!("hop s{} case {}: phantom payment credited with {} msat for an HTLC carrying {}", sc, case, ca, in_amt)); } }
+		// ---- resolution: the recipient claims (2/3) or fails; then B's settled balance must not have fallen
+		let at_recv = net.claimable[recv].iter().any(|c| c.0 == hash);
+		let claim = at_recv && rng.chance(2, 3);
+		let mut panicked = false;
+		if at_recv {
+			net.claimable[recv].retain(|c| c.0 != hash);
+			let r = guarded(std::panic::AssertUnwindSafe(|| { if claim { net.claim(p); } else { net.fail_back(p); net.forward(recv); } net.settle(14); }));
+			if let Err(pn) = r { panicked = true; rec.oracle_fail(format!("hop s{} case {}: resolving the HTLC panicked: {} (in {} msat, offered downstream {:?}, next hop {:?})", sc, case, pn.chars().take(160).collect::<String>(), in_amt, add_out, kind)); }
+		}
+		if panicked { break; }
+		let busy = net.nodes[B].node.list_channels().iter().any(|c| !c.pending_inbound_htlcs.is_empty() || !c.pending_outbound_htlcs.is_empty());
+		if !busy {
+			let bal_after = b_total_balance(&net);
+			let dlt = bal_after as i128 - bal_before as i128;
+			let expect: i128 = if claim { if kind == Kind::Phantom { in_amt as i128 } else { in_amt as i128 - add_out.map(|x| x.0).unwrap_or(0) as i128 } } else { 0 };
+			if dlt < 0 { rec.oracle_fail(format!("hop s{} case {}: Σ value_to_self of the forwarder decreased by {} msat after resolution (received {} msat upstream, offered {:?} downstream, next hop {:?}, claimed {})", sc, case, -dlt, in_amt, add_out, kind, claim)); }
+			else if dlt != expect { rec.oracle_fail(format!("hop s{} case {}: Σ value_to_self of the forwarder changed by {} msat, expected {} (in {} msat, offered {:?}, next hop {:?}, claimed {})", sc, case, dlt, expect, in_amt, add_out, kind, claim)); }
+			if claim && kind != Kind::Phantom {
+				if let Some(Event::PaymentForwarded { total_fee_earned_msat, .. }) = net.events[B][evpos..].iter().find(|e| matches!(e, Event::PaymentForwarded { .. })) {
+					let want = in_amt.checked_sub(add_out.map(|x| x.0).unwrap_or(0));
+					if *total_fee_earned_msat != want { rec.oracle_fail(format!("hop s{} case {}: PaymentForwarded total_fee_earned_msat={:?} but in-out is {:?}", sc, case, total_fee_earned_msat, want)); }
+				} else { rec.oracle_fail(format!("hop s{} case {}: claimed forward without a PaymentForwarded event", sc, case)); }
+			}
+		}
+		// ---- the observed outcome as a line
+		let (res, class) = if let Some((ia, ea, xa)) = intercepted {
+			(format!("intercept {} {} {}", ia, ea, xa), format!("{:?}:intercept", kind))
+		} else if let Some((oa, oc)) = add_out { (format!("forward {} {}", oa, oc), format!("{:?}:forward", kind)) }
+		else if let Some(ca) = claimable_b { (format!("phantom {} {}", ca, out_cltv), format!("{:?}:phantom-recv", kind)) }
+		else if let Some(r) = reason.clone() {
+			if !ADMISSION_REASONS.contains(&r.as_str()) { rec.discarded += 1; *rec.classes.entry(format!("discard:{:?}:{}", kind, r)).or_insert(0) += 1; if busy { break; } continue; }
+			(format!("reject {}", r), format!("{:?}:reject:{}", kind, r))
+		} else { rec.discarded += 1; *rec.classes.entry(format!("discard:{:?}:no-reaction", kind)).or_insert(0) += 1; if busy { break; } continue; };
+		let kind_txt = match (kind, &det) {
+			(Kind::Phantom, _) => "phantom".to_string(), (Kind::Intercept, _) => "intercept".to_string(), (Kind::Unknown, _) | (Kind::AliasNs, _) => "unknown".to_string(),
+			(k, Some(dt)) => {
+				let enabled = !(k == Kind::Dchan && d_disabled);
+				let connected = !(k == Kind::Dchan && !d_online);
+				format!("chan {} {} {} {} 0 {} {} {} {} {} {} {} {} {}", dt.is_announced as u8, dt.is_usable as u8, enabled as u8, connected as u8, dt.outbound_scid_alias.unwrap_or(0), cp_min,
+					ccur.prop, ccur.base, ccur.delta, cprev.is_some() as u8, cprev.map(|p| p.prop).unwrap_or(0), cprev.map(|p| p.base).unwrap_or(0), cprev.map(|p| p.delta).unwrap_or(0))
+			},
+			_ => unreachable!(),
+		};
+		let rel = if out_amt > in_amt { "out>in" } else if out_amt == in_amt { "out=in" } else { "out<in" };
+		rec.case(&format!("hop {} {} {} {} {} {} {} {} {} {}", hb - 1, flags, accept_priv as u8, prev_public as u8, scid, in_amt, in_cltv, out_amt, out_cltv, kind_txt), &res, &format!("{}:{}", class, rel), true);
+		// the release of an intercepted HTLC: what B put on the wire for `forward_intercepted_htlc(.., amt)`
+		if let (Some((ia, ea, xa)), Some(amt)) = (intercepted, released) {
+			match add_out {
+				Some((oa, oc)) => rec.case(&format!("release {} {} {} {}", ia, ea, xa, amt), &format!("offer {} {}", oa, oc), &format!("{:?}:release:{}", kind, if amt == ea { "expected" } else { "skimmed" }), true),
+				None => { *rec.classes.entry(format!("note:{:?}:release-not-sent:{}", kind, reason.clone().unwrap_or_default())).or_insert(0) += 1; },
+			}
+		}
+		if busy { rec.notes.insert(format!("hop_stuck_s{}", sc), format!("case {}", case)); break; }
 	}
 	std::mem::forget(net);
 }
@@ -434,6 +717,14 @@ fn main() {
 			if let Err(p) = r { rec.oracle_fail(format!("admit scenario {} (seed {}) panicked: {}", sc, args.seed, p.chars().take(200).collect::<String>())); }
 		}
 		rec.notes.insert("rule".into(), "3 real nodes A-B-C per scenario, B's forwarding_fee_base_msat / forwarding_fee_proportional_millionths / cltv_expiry_delta drawn per scenario, B's chain tip 0..120 blocks ahead of A's; per case a hand-built route with the first-hop fee at required / -1 / +1 / 0, the first-hop cltv delta at configured / -1 / +1 / 47 / 48, and the final delta placing outCltv around height+LATENCY_GRACE_PERIOD_BLOCKS, inCltv around height+HTLC_FAIL_BACK_BUFFER and height+CLTV_FAR_FAR_AWAY; observed end-to-end (B→C add vs HTLCHandlingFailed local reason); distinct by op text".into());
+	} else if args.model == "c02hop" {
+		let (n_scen, n_cases) = if args.thorough { (60, 400) } else { (14, 150) };
+		for sc in 0..n_scen * args.scale as usize {
+			let mut sub = Rng::new(rng.next());
+			let r = guarded(std::panic::AssertUnwindSafe(|| hop_scenario(&mut sub, &mut rec, sc, n_cases)));
+			if let Err(p) = r { rec.oracle_fail(format!("hop scenario {} (seed {}) panicked: {}", sc, args.seed, p.chars().take(200).collect::<String>())); }
+		}
+		rec.notes.insert("rule".into(), "4 real nodes A-B-C(-D) per scenario; B's fee/delta config, htlc_interception_flags, accept_forwards_to_priv_channels, announced/unannounced inbound channel, D online/offline/disabled, optional config change on the public B-C channel (prev_config) and B's chain tip 0..40 blocks ahead drawn per scenario; per case a genuine update_add_htlc A->B whose onion is replaced (same session key) by one whose forward payload names a public / private / offline channel, B's phantom SCID, B's intercept SCID or an SCID in no namespace, with amt_to_forward at fee-exact / -1 / +1 / equal to / one more than / 2x / 10x the amount carried and outgoing_cltv_value at configured delta / -1 / +1 / MIN_CLTV_EXPIRY_DELTA / -1 / equal / greater than the inbound expiry and around the height margins; intercepted HTLCs are released at expected_outbound_amount_msat, recipients claim 2/3; distinct by op text".into());
 	} else {
 		let n_scen = if args.thorough { 3000 } else { 450 } * args.scale as usize;
 		let mut class_hist: BTreeMap<String, u64> = BTreeMap::new();
